@@ -330,6 +330,154 @@ theorem renamed_many_keep_access : ∀ (rs : List Ren) (s s' : Struct), s.WF →
 example : ∃ s', applyRens (Struct.empty.run [.addDim "D" false, .addAttr "D" "A" false none, .addAttr "D" "B" false none])
     [⟨"D", "A", "T"⟩, ⟨"D", "B", "A"⟩, ⟨"D", "T", "B"⟩] = .ok s' := ⟨_, rfl⟩
 
+/-! ### edits elsewhere -/
+
+/-- the dimension an edit is about -/
+def _root_.CC.Edit.dim : Edit → String
+  | .addDim n _ => n
+  | .delDim n => n
+  | .addAttr d _ _ _ => d
+  | .delAttr d _ => d
+  | .rename d _ _ => d
+  | .disable d _ => d
+
+theorem lookup_aerase_other {β} (l : List (String × β)) (k k' : String) (h : k' ≠ k) :
+    (aerase l k).lookup k' = l.lookup k' := by
+  induction l with
+  | nil => rfl
+  | cons p t ih =>
+    obtain ⟨a, b⟩ := p
+    unfold aerase at ih ⊢
+    by_cases hak : a = k
+    · subst hak
+      have h1 : (a != a) = false := by simp
+      have h2 : (k' == a) = false := by
+        cases hb : k' == a
+        · rfl
+        · exact absurd (eq_of_beq hb) h
+      simp only [List.filter_cons, h1, Bool.false_eq_true, if_false, List.lookup_cons, h2]
+      exact ih
+    · have h1 : (a != k) = true := by simp [hak]
+      simp only [List.filter_cons, h1, if_true, List.lookup_cons]
+      cases hb : k' == a
+      · exact ih
+      · rfl
+
+theorem lookup_append_other {β} (l : List (String × β)) (k k' : String) (v : β) (h : k' ≠ k) :
+    (l ++ [(k, v)]).lookup k' = l.lookup k' := by
+  induction l with
+  | nil =>
+    have h2 : (k' == k) = false := by
+      cases hb : k' == k
+      · rfl
+      · exact absurd (eq_of_beq hb) h
+    simp [List.lookup, h2]
+  | cons p t ih =>
+    obtain ⟨a, b⟩ := p
+    simp only [List.cons_append, List.lookup_cons]
+    cases hb : k' == a
+    · exact ih
+    · rfl
+
+/-- an accepted edit leaves every other dimension exactly as it was -/
+theorem Struct.apply_lookup_other {s s' : Struct} {e : Edit} (h : s.apply e = .ok s') {dn : String}
+    (hd : dn ≠ e.dim) : s'.dims.lookup dn = s.dims.lookup dn := by
+  cases e with
+  | addDim n o =>
+    simp only [Struct.apply, Struct.addDimension] at h
+    split at h
+    · simp at h
+    · simp only [Except.ok.injEq] at h; subst h
+      exact lookup_append_other _ _ _ _ hd
+  | delDim n =>
+    simp only [Struct.apply, Struct.delDimension] at h
+    split at h
+    · simp only [Except.ok.injEq] at h; subst h
+      exact lookup_aerase_other _ _ _ hd
+    · simp at h
+  | addAttr d n hy a =>
+    simp only [Struct.apply, Struct.addAttribute] at h
+    cases hl : s.dims.lookup d with
+    | none => simp [hl] at h
+    | some dd =>
+      simp only [hl] at h
+      cases ha : dd.addAttribute n hy a s.nextId with
+      | error e => simp [ha] at h
+      | ok d' =>
+        simp only [ha, Except.ok.injEq] at h; subst h
+        exact lookup_areplace_other _ _ _ _ hd
+  | delAttr d n =>
+    obtain ⟨_, d', _, _, rfl⟩ := Struct.onDim_spec (by simpa [Struct.apply, Struct.delAttribute] using h)
+    exact lookup_areplace_other _ _ _ _ hd
+  | rename d o n =>
+    obtain ⟨_, d', _, _, rfl⟩ := Struct.onDim_spec (by simpa [Struct.apply, Struct.renameAttribute] using h)
+    exact lookup_areplace_other _ _ _ _ hd
+  | disable d n =>
+    obtain ⟨_, d', _, _, rfl⟩ := Struct.onDim_spec (by simpa [Struct.apply, Struct.disableAttribute] using h)
+    exact lookup_areplace_other _ _ _ _ hd
+
+/-- any sequence of edits (failing ones included) none of which is about dimension `dn` leaves `dn` as it was -/
+theorem Struct.run_lookup_other (es : List Edit) : ∀ (s : Struct) {dn : String}, (∀ e ∈ es, dn ≠ e.dim) →
+    (s.run es).dims.lookup dn = s.dims.lookup dn := by
+  induction es with
+  | nil => intro s dn _; rfl
+  | cons e rest ih =>
+    intro s dn hd
+    simp only [Struct.run, List.foldl_cons]
+    cases ha : s.apply e with
+    | error _ =>
+      simp only
+      exact ih s (fun e' he' => hd e' (List.mem_cons_of_mem _ he'))
+    | ok s1 =>
+      simp only
+      have := ih s1 (dn := dn) (fun e' he' => hd e' (List.mem_cons_of_mem _ he'))
+      unfold Struct.run at this
+      rw [this]
+      exact Struct.apply_lookup_other ha (hd e List.mem_cons_self)
+
+theorem mapM_getAttribute_congr {s s' : Struct} : ∀ (ε : List QA),
+    (∀ q ∈ ε, s'.dims.lookup q.dim = s.dims.lookup q.dim) →
+    mapMExcept s'.getAttribute ε = mapMExcept s.getAttribute ε
+  | [], _ => rfl
+  | q :: rest, h => by
+    have hq : s'.getAttribute q = s.getAttribute q := by
+      unfold Struct.getAttribute; rw [h q List.mem_cons_self]
+    unfold mapMExcept
+    rw [hq, mapM_getAttribute_congr rest (fun q' hq' => h q' (List.mem_cons_of_mem _ hq'))]
+
+/-- **Edits never change who can open encapsulations for unrelated attributes.** Any sequence of
+edits — additions, deletions, renames, disables of attributes, additions and deletions of
+dimensions, accepted or refused — none of which is about a dimension named by the encryption clause
+`ε`: a key generated *before* them for any clause `cl` (whatever dimensions it names — they may have
+been edited or deleted since) holds the right targeted *after* them by `ε` exactly when the
+name-level cover relation held before the edits, and it is the same relation in the edited
+structure. -/
+theorem unrelated_edits_keep_access (s : Struct) (hS : s.WF) (es : List Edit) (cl ε : List QA)
+    (hcl : ClauseNodup cl) (hε : ClauseNodup ε)
+    (hkc : Spec.clauseKnown s cl = true) (hkε : Spec.clauseKnown s ε = true)
+    (hun : ∀ e ∈ es, ∀ q ∈ ε, q.dim ≠ e.dim) :
+    ∃ pts eas, s.complementaryPoints cl = .ok pts ∧
+      mapMExcept (s.run es).getAttribute ε = .ok eas ∧
+      ((∃ p ∈ pts, Right.fromPoint p = Right.fromPoint (eas.map (·.id))) ↔
+        Spec.coversClause (s.run es) cl ε = true) ∧
+      Spec.coversClause (s.run es) cl ε = Spec.coversClause s cl ε := by
+  obtain ⟨pts, eas, hpts, heas, hiff⟩ := clause_right_iff hS hcl hε hkc hkε
+  have hlk : ∀ q ∈ ε, (s.run es).dims.lookup q.dim = s.dims.lookup q.dim :=
+    fun q hq => Struct.run_lookup_other es s (fun e he => hun e he q hq)
+  have hcov : Spec.coversClause (s.run es) cl ε = Spec.coversClause s cl ε := by
+    unfold Spec.coversClause
+    apply all_congr_mem
+    intro qx hqx
+    rw [hlk qx hqx]
+  refine ⟨pts, eas, hpts, ?_, ?_, hcov⟩
+  · rw [mapM_getAttribute_congr ε hlk]; exact heas
+  · rw [hcov]; exact hiff
+
+/-- non-vacuity: a dimension is added, filled, an attribute of it renamed and disabled, another
+dimension deleted — none of it is about dimension "D" -/
+example : ∀ e ∈ [Edit.addDim "N" true, .addAttr "N" "X" true none, .rename "N" "X" "Y", .disable "N" "Y", .delDim "S"],
+    ∀ q ∈ [(⟨"D", "A"⟩ : QA)], q.dim ≠ Edit.dim e := by decide
+
 /-- non-vacuity: delete then add — the new attribute gets a new identifier (2), not the deleted one's (0) -/
 example : (Struct.empty.run [.addDim "D" false, .addAttr "D" "A" false none, .addAttr "D" "B" false none,
     .delAttr "D" "A", .addAttr "D" "C" false none]).dims = [("D", ⟨false, [("B", ⟨1, false, false⟩), ("C", ⟨2, false, false⟩)]⟩)] := by
